@@ -269,7 +269,9 @@ def check_left_out(ctx, v, cls, kw):
         try:
             same_val = [float(x) for x in val] == spec_sig[k] if k == 'bounds' else float(val) == spec_sig[k]
         except Exception:
-            same_val = False
+            # the signature does not say (None / a sentinel: the value is filled in by the body): the documented value of
+            # the specification is what the keyword stands for
+            val, same_val = spec_sig[k], True
         known = known and same_val
         full[k] = tuple(val) if k == 'bounds' else val
     try:
@@ -682,12 +684,15 @@ def check_delivery_batch(ctx, batch, rng):
                         vector=dict(slim, k=k), detail=detail)
 
 
-def run_delivery(ctx, zf, vecs=None, only=None):
+def run_delivery(ctx, zf, vecs=None, only=None, started=None):
     env = tlc_env(zf)
     tiny = tlc_env(zf, True)
     if vecs is None:
-        res = ctx.check_spec('delivery', 'MC_PriorDelivery', 'MC_PriorDelivery_%s.cfg' % ctx.tier,
-                             need_actions=('Attach', 'CompileModel', 'CompileObservation', 'Recompile', 'Update'), env=env, workers=1)
+        need = ('Attach', 'CompileModel', 'CompileObservation', 'Recompile', 'Update')
+        if started is not None:
+            res = settle_spec(ctx, 'delivery', started['delivery'].result(), need)
+        else:
+            res = ctx.check_spec('delivery', 'MC_PriorDelivery', 'MC_PriorDelivery_%s.cfg' % ctx.tier, need_actions=need, env=env, workers=1)
         ctx.expect_refuted('delivery-by-mode-refuted', 'MC_PriorDelivery', 'MC_PriorDelivery_bymode.cfg', 'DeliveryInv', env=tiny, workers=4)
         ctx.expect_refuted('delivery-second-pass-blind-refuted', 'MC_PriorDelivery', 'MC_PriorDelivery_secondblind.cfg',
                            'UserPriorInForceInv', env=tiny, workers=4)
@@ -799,6 +804,17 @@ def own_of(owners, param):
     return 'model' if param in owners['model'].received else 'observation'
 
 
+def factor_route(bounds, rng):
+    """(value, factors) with factors[i] * value == bounds[i] exactly in doubles (bounds are powers of ten)."""
+    cands = [10.0 ** c for c in (1, -1, 2, -2, 3)]
+    rng.shuffle(cands)
+    for value in cands + [1.0]:
+        factors = tuple(b / value for b in bounds)
+        if all(f * value == b and f > 0 for f, b in zip(factors, bounds)):
+            return value, factors
+    raise Machinery('no exact factors for the bounds %r' % (bounds,))
+
+
 def replay_walk(ctx, w, rng):
     """One exported walk on ONE real optimizer.  After every compile: the prior in force and what is delivered against
     the exported observation; the bounds objects handed over against private copies; after the last compile of a step
@@ -812,6 +828,7 @@ def replay_walk(ctx, w, rng):
     opt.enable_fit(fp)
     opt.enable_fit(cp)
     held = {}                               # slot -> (object, private copy, container) of the bounds object in the parameter table
+    came = {}                               # slot -> route by which the present bounds came when no object of the caller's is held
     cur = dict(mtext='', call=None)
     trail = []
     done = []                               # the steps so far, as exported (kept with a violation: the replay needs nothing else)
@@ -839,6 +856,21 @@ def replay_walk(ctx, w, rng):
                     lo, hi = bounds_of(e)
                     fxp.apply_fitting_lines(opt, ['%s:fit = True' % par, '%s:bounds = %r, %r' % (par, lo, hi)])
                     held.pop(slot, None)
+                    came[slot] = 'file'
+                elif e['via'] in ('factor', 'factor_file'):
+                    # the other public route to the bounds: factors of the parameter's present value
+                    value, factors = factor_route(bounds_of(e), rng)
+                    owners[own_of(owners, par)].values[par] = value
+                    if e['via'] == 'factor':
+                        fobj, fcopy = make_arg(rng.choice(['tuple', 'list', 'ndarray_readonly']), factors)
+                        opt.set_factor_boundary(par, fobj)
+                        ok, now = arg_intact(fobj, fcopy)
+                        ctx.verdict('argument_unchanged', ok, cls='set_factor_boundary:%s|%s' % (slot, base), vector=vi,
+                                    detail='the factors handed to set_factor_boundary(%s, ..) hold %s, they held %r' % (par, now, fcopy))
+                    else:
+                        fxp.apply_fitting_lines(opt, ['%s:fit = True' % par, '%s:factor = %r, %r' % (par, factors[0], factors[1])])
+                    held.pop(slot, None)
+                    came[slot] = e['via']
                 else:
                     obj, copy = make_arg(e['ct'], bounds_of(e))
                     opt.set_boundary(par, obj)
@@ -938,7 +970,7 @@ def run_history(ctx, zf, started):
     # default prior is compiled again after a change of the mode alone / with an array as bounds object
     steps = [st for w in walks for st in w['walk']]
     seen = {(st['e']['op'], st['e']['via']) for st in steps if int(st['e']['n']) > 0}
-    need = {('mode', 'call'), ('mode', 'file'), ('bounds', 'call'), ('bounds', 'file'), ('other', 'call'), ('prior', 'object'), ('prior', 'text'),
+    need = {('mode', 'call'), ('mode', 'file'), ('bounds', 'call'), ('bounds', 'file'), ('bounds', 'factor'), ('bounds', 'factor_file'), ('other', 'call'), ('prior', 'object'), ('prior', 'text'),
             ('prior', 'file'), ('again', 'call')}
     spells = {(st['settings']['mode'], spelling_class(st['e']['text'])) for st in steps if st['e']['op'] == 'mode' and int(st['e']['n']) > 0 and not st['settings']['given']}
     conts = {st['e']['ct'] for st in steps if st['e']['op'] == 'bounds' and st['e']['via'] == 'call'}
@@ -960,23 +992,239 @@ def run_history(ctx, zf, started):
     CONTS[:] = sorted(walks[0]['conts'])
 
 
+# ------------------------------------------------------------------ one PRIOR object over its life (binding C, MC_PriorObject.tla)
+def object_checks(ctx, obj, exp, cls, vec, trail, who):
+    """What one prior object shows after a step of a walk against the exported observation: the support it reports, the inverse
+    CDF on the whole grid (scalar u and the grid as one array), monotonicity, the value handed to the model, and equality with
+    an object built afresh from the support it was given last."""
+    import numpy as np
+    p, rep = exp['p'], exp['rep']
+    kind = p['kind']
+    uni = kind in ('Uniform', 'LogUniform')
+    a, b = float(frac(p['a'])), float(frac(p['b']))
+    ks = [k for k in range(UN + 1) if exp['recv'][k]['sp'] != 'none']
+    after = 'after %s' % ' '.join(trail)
+    try:
+        d = describe(obj)
+        grid = [float(obj.sample(k / UN)) for k in ks]
+        arr = obj.sample(np.array([k / UN for k in ks]))
+        model = [obj.prior(x) if abs(x) < 300 else None for x in grid]          # 10**x must be a float
+    except Exception as ex:
+        ctx.verdict('object_call_accepted', False, cls=cls, vector=vec, detail='%s (%s): %s raised %r' % (who, kind, after, ex))
+        return
+    ra, rb = float(frac(rep['a'])), float(frac(rep['b']))
+    okr = d['cls'] == rep['kind'] and d['mode'] == exp['space'] and len(d['params']) == 2 and same(d['params'][0], ra, REL_U) and same(d['params'][1], rb, REL_U)
+    if uni:
+        okr = okr and same(d['boundaries'][0], ra, REL_U) and same(d['boundaries'][1], rb, REL_U)
+    ctx.verdict('object_reports_support', okr, cls=cls, vector=vec,
+                detail='%s %s: reports %s %r / %r, the support given last is %s(%r, %r)' % (who, after, d['cls'], d['params'], d['boundaries'], rep['kind'], ra, rb))
+    bad = None
+    for k, got in zip(ks, grid):
+        if uni:
+            want = float(frac(exp['recv'][k]['x']))
+            ok = same(got, want, REL_U, scale=max(abs(a), abs(b)))
+        else:
+            want = a + b * ND.inv_cdf(k / UN)
+            ok = same(got, want, REL_G, scale=max(abs(a), abs(b))) and abs(got - float(frac(exp['recv'][k]['x']))) <= b * 0.5 / ZS + 1e-9
+        if not ok and bad is None:
+            bad = 'sample(%d/%d) = %r, the inverse CDF of %s(%r, %r) gives %r' % (k, UN, got, kind, a, b, want)
+    ctx.verdict('object_inverse_cdf', bad is None, cls=cls, vector=vec, detail='%s %s: %s' % (who, after, bad))
+    ctx.verdict('object_monotone', all(y > x for x, y in zip(grid, grid[1:])), cls=cls, vector=vec,
+                detail='%s %s: samples on the grid %r' % (who, after, grid))
+    try:
+        flat = np.asarray(arr, dtype=float)
+        okv = flat.shape == (len(ks),) and all(same(x, y, 1e-14, scale=max(abs(a), abs(b))) for x, y in zip(flat.tolist(), grid))
+    except Exception:
+        okv = False
+    ctx.verdict('object_vector_u', okv, cls=cls, vector=vec, detail='%s %s: sample(<array of the grid>) = %r, one by one %r' % (who, after, arr, grid))
+    want_m = [10.0 ** x if exp['space'] == 'log' else x for x in grid if abs(x) < 300]
+    got_m = [m for m, x in zip(model, grid) if abs(x) < 300]
+    try:
+        okm = all(same(m, w, 1e-12) for m, w in zip(got_m, want_m)) and all(exp['recv'][k]['sp'] == ('pow10' if exp['space'] == 'log' else 'id') for k in ks)
+    except Exception:
+        okm = False
+    ctx.verdict('object_back_transform', okm, cls=cls, vector=vec, detail='%s %s: prior(sample) = %r expected %r' % (who, after, got_m, want_m))
+    try:
+        if uni:
+            fresh = klass(kind)(bounds=(float(frac(exp['last'][0])), float(frac(exp['last'][1]))))
+        else:
+            fresh = klass(kind)(mean=a, std=b)
+        fd = describe(fresh)
+        okf = fd == d and [float(fresh.sample(k / UN)) for k in ks] == grid
+        detail = 'long-lived %r samples %r; built afresh %r' % (d, grid[:3], fd)
+    except Exception as ex:
+        okf, detail = False, 'the fresh object raised %r' % (ex,)
+    ctx.verdict('object_equals_fresh', okf, cls=cls, vector=vec, detail='%s %s: %s' % (who, after, detail))
+
+
+def replay_object_walk(ctx, w, rng):
+    """One exported walk of MC_PriorObject on two real prior objects.  In a third of the walks `main` is attached to an optimizer from
+    the start (set_prior) and what update_model delivers is observed after every step as well."""
+    from taurex.parameter.factory import create_prior
+    objs, held, born = {}, {}, {}
+    trail = []
+    done = []
+    opt = owners = par = None
+    attach = rng.random() < 0.34
+    own, pk = rng.choice(['model', 'observation']), rng.choice(sorted(fxp.KIND_PARAM))
+
+    for i, step in enumerate(w['walk']):
+        e = step['e']
+        who = e['who']
+        done.append(step)
+        vec = dict(objhist=True, walk=list(done))
+        what = e['op'] + (':' + (e['ct'] or 'text') if e['op'] in ('set', 'reuse') else
+                          ':%s:%s:%s' % (e['call']['cls'], form_of(e['call']), e['how'] + (':' + e['ct'] if e['ct'] and e['call']['key1'] in ('bounds', 'lin_bounds') else ''))
+                          if e['op'] == 'make' else '')
+        trail.append('%s(%s)' % (what, who) if e['op'] != 'look' else 'look')
+        try:
+            if e['op'] == 'make':
+                call = e['call']
+                if not lin_exact(call):
+                    raise Machinery('log10(10**e) not exact for %r' % (call,))
+                kw = kwargs_of(call)
+                held.pop(who, None)
+                if e['how'] == 'text':
+                    name = rng.choice([call['cls'], call['cls'].lower(), call['cls'].upper()])
+                    objs[who] = create_prior(rng.choice(text_forms(name, kw, rng)))
+                else:
+                    if e['ct'] and call['key1'] in ('bounds', 'lin_bounds'):
+                        made = make_arg(e['ct'], kw[call['key1']])
+                        kw[call['key1']] = made[0]
+                        held[who] = [made[0], made[1], e['ct']]
+                    objs[who] = klass(call['cls'])(**kw)
+                born[who] = '%s:%s' % (form_of(call), e['how'])
+                if who == 'main' and attach:
+                    opt, owners = fxp.fresh_owners()
+                    par = fxp.PARAM[(own, pk)]
+                    opt.enable_fit(par)
+                    opt.set_prior(par, objs['main'])
+            elif e['op'] == 'set':
+                made = make_arg(e['ct'], (float(frac(e['b'][0])), float(frac(e['b'][1]))))
+                objs[who].set_bounds(made[0])
+                held[who] = [made[0], made[1], e['ct']]
+            elif e['op'] == 'reuse':
+                arr = held[who][0]
+                for j, x in enumerate((-77.25, 123.5)):          # the caller's own container: it holds what the caller writes
+                    arr[j] = x
+                held[who][1] = [-77.25, 123.5]
+            elif e['op'] != 'look':
+                raise Machinery('unknown step %r in an exported object walk' % (e,))
+        except Machinery:
+            raise
+        except Exception as ex:
+            ctx.verdict('object_call_accepted', False, cls='after=%s|object=%s' % (what, who), vector=vec,
+                        detail='%s raised %r after %s' % (what, ex, ' '.join(trail[:-1]) or 'nothing'))
+            return
+        for name in ('main', 'other'):
+            exp = step[name]
+            if not exp['alive']:
+                continue
+            role = 'acted-on' if (name == who and e['op'] != 'look') else 'bystander'
+            cls = '%s|born=%s|after=%s|%s' % (exp['p']['kind'], born[name], what, role)
+            object_checks(ctx, objs[name], exp, cls, vec, trail, name)
+            if name in held:
+                ok, now = arg_intact(held[name][0], held[name][1])
+                ctx.verdict('argument_unchanged', ok, cls='prior-object:%s:container=%s|after=%s' % (exp['p']['kind'], held[name][2], what), vector=vec,
+                            detail='the %s object handed to %s holds %s, the caller left %r in it (%s)' % (held[name][2], name, now, held[name][1], ' '.join(trail)))
+        if opt is not None:
+            exp = step['main']
+            cls = '%s|born=%s|after=%s|attached:%s(%s)' % (exp['p']['kind'], born['main'], what, own, pk)
+            try:
+                opt.compile_params()
+                seen = observe_optimizer(opt, owners, dict(focus=par))['focus']
+            except Exception as ex:
+                ctx.verdict('object_call_accepted', False, cls=cls, vector=vec, detail='compile_params / update_model raised %r after %s' % (ex, ' '.join(trail)))
+                return
+            ctx.verdict('object_delivered', seen['prior'] is objs['main'], cls=cls, vector=vec,
+                        detail='the prior in force of %s is not the object given to set_prior (%s)' % (par, ' '.join(trail)))
+            for k in HK:
+                r = exp['recv'][k]
+                if r['sp'] == 'none':
+                    continue
+                ok, detail = received_ok(r, seen['recv'][k], exp['p'], k)
+                ctx.verdict('object_delivered', ok, cls=cls, vector=dict(vec, k=k),
+                            detail='%s of the %s with the long-lived %s at u=%d/%d after %s: %s' % (par, own, exp['p']['kind'], k, UN, ' '.join(trail), detail))
+    ctx.traces += 1
+
+
+def run_objects(ctx, started):
+    """MC_PriorObject: exhaustive run, expected counterexamples, the simulated walks and their replay."""
+    q = ctx.tier == 'quick'
+    res = started['object-exhaustive'].result()
+    ctx.add_tlc('object-exhaustive', res)
+    if res.violated:
+        raise Machinery('spec MC_PriorObject violates %s\n%s' % (res.violated, res.error_trace))
+    if res.distinct == 0 or res.generated < 10 * res.distinct:
+        raise Machinery('MC_PriorObject: %d transitions for %d states' % (res.generated, res.distinct))
+    for label in OBJ_REFUTED:
+        if label in started:
+            r = started[label].result()
+            ctx.add_tlc(label, r, counts=False)
+            if r.violated != 'ObjectInv':
+                raise Machinery('expected TLC to refute ObjectInv in %s, got %r' % (label, r.violated))
+    res = started['object-walks'].result()
+    ctx.add_tlc('object-walks(simulate)', res, counts=False)
+    if res.violated:
+        raise Machinery('MC_PriorObject (simulation) violates %s' % (res.violated,))
+    walks = res.tagged('OBJ')
+    nwant = 80 if q else 400
+    if len(walks) < nwant // 2:
+        raise Machinery('TLC produced only %d object walks' % len(walks))
+    # vacuity: the setter on either object in every container, both orders of the bounds, every way of making an object, a container
+    # written to by its owner, a plain second look, objects of all four classes
+    steps = [st for w in walks for st in w['walk']]
+    seen = {(st['e']['op'], st['e']['who']) for st in steps}
+    conts = {st['e']['ct'] for st in steps if st['e']['op'] == 'set'}
+    orders = {frac(st['e']['b'][0]) < frac(st['e']['b'][1]) for st in steps if st['e']['op'] == 'set'}
+    makes = {(st['e']['call']['cls'], form_of(st['e']['call']), st['e']['how']) for st in steps if st['e']['op'] == 'make'}
+    need = {('make', 'main'), ('make', 'other'), ('set', 'main'), ('set', 'other'), ('reuse', 'main'), ('reuse', 'other'), ('look', 'main')}
+    if not need <= seen or conts != set(walks[0]['conts']) or orders != {True, False} \
+            or {(f.split('+')[0], h) for _, f, h in makes} != {(f, h) for f in ('bounds', 'lin_bounds', 'default', 'mean') for h in ('direct', 'text')} \
+            or {c for c, _, _ in makes} != {'Uniform', 'LogUniform', 'Gaussian', 'LogGaussian'} \
+            or sum(1 for st in steps if st['e']['op'] == 'set' and st['e']['who'] == 'main') < len(walks) // 2:
+        raise Machinery('object walks incomplete: steps %r, containers %r, ways of making an object %r' % (sorted(seen), sorted(conts), sorted(makes)))
+    rng = random.Random(ctx.seed * 7919 + 8)
+    for w in walks:
+        replay_object_walk(ctx, w, rng)
+    ctx.note('prior objects: %d TLC-simulated walks of %d steps (set_bounds on either of two objects, a second object made, the caller\'s container '
+             'rewritten, a second look) replayed on long-lived prior objects, a third of them attached to an optimizer' % (len(walks), len(walks[0]['walk'])))
+    ctx.add_sample(dict(object_walk=[st['e'] for st in walks[0]['walk']],
+                        last_observation={n: ({k: o[k] for k in ('p', 'rep', 'space', 'last')} if o['alive'] else o) for n, o in
+                                          (('main', walks[0]['walk'][-1]['main']), ('other', walks[0]['walk'][-1]['other']))}))
+
+
+OBJ_REFUTED = ('object-support-frozen-refuted', 'object-support-on-class-refuted', 'object-keeps-callers-container-refuted')
+
+
 def start_background(ctx, zf):
     """TLC runs that nothing in the first part of the driver waits for (tiny state spaces, mostly JVM start-up)."""
     from concurrent.futures import ThreadPoolExecutor
     env = tlc_env(zf)
     tiny = tlc_env(zf, True)
     q = ctx.tier == 'quick'
-    pool = ThreadPoolExecutor(max_workers=3)
+    pool = ThreadPoolExecutor(max_workers=4)
     jobs = {
+        # the design-level runs nothing waits for at once (the vectors need the export only, which run() does itself)
+        'exhaustive': lambda: run_tlc('MC_Priors', 'MC_Priors_%s.cfg' % ctx.tier, env=env, workers=4, coverage=True),
+        'delivery': lambda: run_tlc('MC_PriorDelivery', 'MC_PriorDelivery_%s.cfg' % ctx.tier, env=env, workers=1, coverage=True),
         'history-walks': lambda: run_tlc('MC_PriorHistory', 'SIM_PriorHistory.cfg' if q else 'SIM_PriorHistory_thorough.cfg', env=env, workers=1,
                                          simulate='num=%d' % (120 if q else 1200), depth=20, seed=ctx.seed + 17),
+        'object-walks': lambda: run_tlc('MC_PriorObject', 'SIM_PriorObject.cfg' if q else 'SIM_PriorObject_thorough.cfg', env=env, workers=1,
+                                        simulate='num=%d' % (80 if q else 400), depth=20, seed=ctx.seed + 23, allow_violation=True),
         'history-exhaustive': lambda: run_tlc('MC_PriorHistory', 'MC_PriorHistory_%s.cfg' % ctx.tier, env=env, workers=4, coverage=not q),
+        'object-exhaustive': lambda: run_tlc('MC_PriorObject', 'MC_PriorObject_%s.cfg' % ctx.tier, env=env, workers=2),
+        'object-support-frozen-refuted': lambda: run_tlc('MC_PriorObject', 'MC_PriorObject_frozen.cfg', env=tiny, workers=1, allow_violation=True),
         'history-default-cache-refuted': lambda: run_tlc('MC_PriorHistory', 'MC_PriorHistory_cached.cfg', env=tiny, workers=2, allow_violation=True),
         'history-mode-as-typed-refuted': lambda: run_tlc('MC_PriorHistory', 'MC_PriorHistory_astyped.cfg', env=tiny, workers=2, allow_violation=True),
         'history-bounds-in-place-refuted': lambda: run_tlc('MC_PriorHistory', 'MC_PriorHistory_inplace.cfg', env=tiny, workers=2, allow_violation=True),
         'argument-in-place-refuted': lambda: run_tlc('MC_Priors', 'MC_Priors_inplace.cfg', env=tiny, workers=2, allow_violation=True),
         'keywords-coupled-refuted': lambda: run_tlc('MC_Priors', 'MC_Priors_coupled.cfg', env=tiny, workers=2, allow_violation=True),
+        'unordered-bounds-refuted': lambda: run_tlc('MC_Priors', 'MC_Priors_asgiven.cfg', env=tiny, workers=1, allow_violation=True),
     }
+    if not q:       # the two rarer ways in which a setter can miss the transform (quick: the refutation above shows ObjectInv is not vacuous)
+        jobs['object-support-on-class-refuted'] = lambda: run_tlc('MC_PriorObject', 'MC_PriorObject_classlevel.cfg', env=tiny, workers=1, allow_violation=True)
+        jobs['object-keeps-callers-container-refuted'] = lambda: run_tlc('MC_PriorObject', 'MC_PriorObject_byref.cfg', env=tiny, workers=1, allow_violation=True)
     started = {k: pool.submit(f) for k, f in jobs.items()}
     pool.shutdown(wait=False)
     return started
@@ -984,7 +1232,20 @@ def start_background(ctx, zf):
 
 REFUTED = {'history-default-cache-refuted': 'HistoryInv', 'history-mode-as-typed-refuted': 'ModeSpellingInv',
            'history-bounds-in-place-refuted': 'ArgsFrameInv', 'argument-in-place-refuted': 'ArgsFrameInv',
-           'keywords-coupled-refuted': 'LinArgsInv'}
+           'keywords-coupled-refuted': 'LinArgsInv', 'unordered-bounds-refuted': 'MonotoneInv'}
+
+
+def settle_spec(ctx, label, res, need_actions=()):
+    """What ctx.check_spec concludes from a design-level run, for a run that was started in the background."""
+    ctx.add_tlc(label, res)
+    if res.violated:
+        raise Machinery('spec run %s violates %s\n%s' % (label, res.violated, res.error_trace))
+    for a in need_actions:
+        if res.action_cov.get(a, (0, 0))[1] == 0:
+            raise Machinery('vacuous: action %s never taken in %s' % (a, label))
+    if res.distinct == 0:
+        raise Machinery('TLC reported 0 states for %s' % label)
+    return res
 
 
 def collect_background(ctx, started):
@@ -1316,7 +1577,9 @@ def run(ctx):
                          'Trace_Priors.cfg', 'MC_PriorDelivery_%s.cfg' % ctx.tier, 'MC_PriorDelivery_bymode.cfg',
                          'MC_PriorDelivery_secondblind.cfg', 'MC_Priors_inplace.cfg', 'MC_PriorHistory_%s.cfg' % ctx.tier,
                          'SIM_PriorHistory.cfg' if q else 'SIM_PriorHistory_thorough.cfg', 'MC_PriorHistory_cached.cfg',
-                         'MC_PriorHistory_astyped.cfg', 'MC_PriorHistory_inplace.cfg'])
+                         'MC_PriorHistory_astyped.cfg', 'MC_PriorHistory_inplace.cfg', 'MC_Priors_coupled.cfg',
+                         'MC_PriorObject_%s.cfg' % ctx.tier, 'SIM_PriorObject.cfg' if q else 'SIM_PriorObject_thorough.cfg',
+                         'MC_PriorObject_frozen.cfg', 'MC_PriorObject_classlevel.cfg', 'MC_PriorObject_byref.cfg'])
     zf = z_file()
     started = None
     try:
@@ -1326,9 +1589,6 @@ def run(ctx):
         env = tlc_env(zf)
         started = start_background(ctx, zf)
         defaults0 = default_objects()
-        ctx.check_spec('exhaustive', 'MC_Priors', 'MC_Priors_%s.cfg' % ctx.tier, need_actions=('Eval',), env=env, workers=8)
-        ctx.exhaustive = True
-        ctx.expect_refuted('unordered-bounds-refuted', 'MC_Priors', 'MC_Priors_asgiven.cfg', 'MonotoneInv', env=tlc_env(zf, True), workers=1)
         res = ctx.check_spec('export', 'MC_Priors', 'EX_Priors.cfg' if q else 'EX_Priors_thorough.cfg', env=env, workers=1)
         vecs = res.tagged('VEC')
         pts = vecs[0]['tpts'] if vecs else []
@@ -1350,13 +1610,16 @@ def run(ctx):
         ctx.add_sample(dict(vector=vecs[len(vecs) // 2]))
         import time
         t1 = time.time()
+        settle_spec(ctx, 'exhaustive', started['exhaustive'].result(), ('Eval',))
+        ctx.exhaustive = True
         collect_background(ctx, started)
         run_history(ctx, zf, started)
+        run_objects(ctx, started)
         t2 = time.time()
-        run_delivery(ctx, zf)
+        run_delivery(ctx, zf, started=started)
         t3 = time.time()
         run_traces(ctx, 4000 if q else 40000, zf, pts)
-        ctx.note('wall: design-level runs + vectors %.0f s, history %.0f s, delivery %.0f s, traces %.0f s' % (t1 - t0, t2 - t1, t3 - t2, time.time() - t3))
+        ctx.note('wall: export + vectors %.0f s, design-level runs, history and object walks %.0f s, delivery %.0f s, traces %.0f s' % (t1 - t0, t2 - t1, t3 - t2, time.time() - t3))
         # the defaults of omitted arguments are what they were before anything was built
         defaults1 = default_objects()
         for name in sorted(defaults0):
@@ -1397,6 +1660,9 @@ def replay(ctx, violations):
                 continue
             if vec.get('hist'):
                 replay_walk(ctx, vec, random.Random(0))
+                continue
+            if vec.get('objhist'):
+                replay_object_walk(ctx, vec, random.Random(0))
                 continue
             if vec.get('defaults'):
                 d0 = default_objects()
